@@ -552,6 +552,108 @@ Definition sync_sched : scheduler sync (option Q * Z) unit :=
   {| on_result := sync_on_result; suggest := sync_suggest; removables := sync_removables;
      on_error := sync_on_error; spec_ok := fun _ _ => false |}.
 
+(* ==== layer 2b': differential evolution Hyperband (DEHB) ============================== *)
+(* dehb.py + dehb_bracket.py + dehb_bracket_manager.py, the part that decides about pause /
+   stop / resume.  Same bracket manager as synchronous Hyperband (next_job, primary bracket,
+   new brackets by offset), but: all rungs are pre-allocated (a completed rung does not promote
+   automatically, nothing is ever reported as removable); only trials of the FIRST bracket
+   (bracket_id 0) are paused, and only if support_pause_resume; a slot of a non-base rung of the
+   first bracket is filled by PROMOTION: the trial at position slot_index of the top list of the
+   previous rung (top_of_previous_rung; its cache per (bracket_id, rung_index) always holds the
+   value computed here) is resumed — or, without support_pause_resume, its configuration is run
+   as a new trial.  Every other slot gets a new trial (searcher / mutation + crossover: which
+   configuration is irrelevant here).  In brackets > 0 the id written into a rung may be the
+   selection winner's; those rungs are never read below, the trial's own id is stored. *)
+Record dehb := {
+  d_tbl : list (list (nat * Z));    (* bracket_rungs per offset = rungs_first_bracket[offset:] *)
+  d_max : bool;
+  d_support : bool;                 (* support_pause_resume *)
+  d_brs : list sbracket;
+  d_primary : nat;
+  d_pending : list (Z * (nat * nat));
+  d_rung0 : nat;                    (* current rung index of the first bracket *)
+  d_prev0 : list (Z * option Q) }.  (* results of the previous rung of the first bracket *)
+
+Definition de_bracket_on_result (b : sbracket) (pos : nat) (t : Z) (m : option Q) : sbracket * bool :=
+  let cur := upd_nth (b_cur b) pos (Some t, Some m) in
+  if Nat.leb (length cur) (b_free b) && all_occupied cur then
+    match b_later b with
+    | [] => ({| b_cur := cur; b_level := b_level b; b_free := 0; b_later := []; b_done := true |}, true)
+    | (sz, lv) :: later =>
+        ({| b_cur := repeat (None, None) sz; b_level := lv; b_free := 0; b_later := later; b_done := false |}, true)
+    end
+  else ({| b_cur := cur; b_level := b_level b; b_free := b_free b; b_later := b_later b; b_done := b_done b |}, false).
+
+Definition dehb_new_bracket (s : dehb) : list sbracket :=
+  let bid := length (d_brs s) in
+  d_brs s ++ [new_bracket (nth (Nat.modulo bid (length (d_tbl s))) (d_tbl s) [])].
+
+Definition dehb_deliver (s : dehb) (i : Z) (k pos : nat) (m : option Q) : dehb :=
+  let b := nth k (d_brs s) (new_bracket []) in
+  let '(b', complete) := de_bracket_on_result b pos i m in
+  let brs := upd_nth (d_brs s) k b' in
+  let p := if Nat.eqb k (d_primary s) then advance_primary brs (d_primary s) (length brs) else d_primary s in
+  let first_done := Nat.eqb k 0 && complete in
+  let s1 := {| d_tbl := d_tbl s; d_max := d_max s; d_support := d_support s; d_brs := brs; d_primary := p;
+               d_pending := remove_pending (d_pending s) i;
+               d_rung0 := if first_done then Datatypes.S (d_rung0 s) else d_rung0 s;
+               d_prev0 := if first_done then occupied (upd_nth (b_cur b) pos (Some i, Some m)) else d_prev0 s |} in
+  if Nat.eqb k (d_primary s) && b_done (nth p brs (new_bracket [])) then
+    {| d_tbl := d_tbl s1; d_max := d_max s1; d_support := d_support s1; d_brs := dehb_new_bracket s1;
+       d_primary := length (d_brs s1); d_pending := d_pending s1; d_rung0 := d_rung0 s1; d_prev0 := d_prev0 s1 |}
+  else s1.
+
+(* on_trial_result; payload = (metric (None = NaN), resource) *)
+Definition dehb_on_result (s : dehb) (i : Z) (r : option Q * Z) : dehb * decision * option Z :=
+  match pending_of (d_pending s) i with
+  | None => (s, STOP, None)
+  | Some (k, pos) =>
+      let b := nth k (d_brs s) (new_bracket []) in
+      if Z.leb (b_level b) (snd r)
+      then (dehb_deliver s i k pos (fst r), if d_support s && Nat.eqb k 0 then PAUSE else STOP, None)
+      else (s, CONTINUE, None)
+  end.
+
+Definition dehb_on_error (s : dehb) (i : Z) : dehb :=
+  match pending_of (d_pending s) i with
+  | None => s
+  | Some (k, pos) => dehb_deliver s i k pos None
+  end.
+
+Definition dehb_set (s : dehb) (brs : list sbracket) (pend : list (Z * (nat * nat))) : dehb :=
+  {| d_tbl := d_tbl s; d_max := d_max s; d_support := d_support s; d_brs := brs; d_primary := d_primary s;
+     d_pending := pend; d_rung0 := d_rung0 s; d_prev0 := d_prev0 s |}.
+
+(* _suggest *)
+Definition dehb_suggest (s : dehb) (nid : Z) (_ : unit) : dehb * suggestion :=
+  let '(brs1, k, pos) :=
+    match find_slot (d_brs s) 0 (d_primary s) with
+    | Some (k, b', pos, _) => (upd_nth (d_brs s) k b', k, pos)
+    | None =>
+        let brs := dehb_new_bracket s in
+        let k := length (d_brs s) in
+        match next_free_slot (nth k brs (new_bracket [])) with
+        | Some (b', pos, _) => (upd_nth brs k b', k, pos)
+        | None => (brs, k, 0%nat)
+        end
+    end in
+  let promoted :=
+    if Nat.eqb k 0 && negb (Nat.eqb (d_rung0 s) 0) && d_support s then
+      nth_error (top_list (d_max s) (d_prev0 s) (length (b_cur (nth 0 brs1 (new_bracket []))))) pos
+    else None in
+  match promoted with
+  | Some t => (dehb_set s brs1 ((t, (k, pos)) :: d_pending s), SResume t)
+  | None => (dehb_set s brs1 ((nid, (k, pos)) :: d_pending s), SNew)
+  end.
+
+Definition dehb_sched : scheduler dehb (option Q * Z) unit :=
+  {| on_result := dehb_on_result; suggest := dehb_suggest; removables := fun s => (s, []);
+     on_error := dehb_on_error; spec_ok := fun _ _ => false |}.
+
+Definition dehb0 (tbl : list (list (nat * Z))) (mx support : bool) : dehb :=
+  {| d_tbl := tbl; d_max := mx; d_support := support; d_brs := [new_bracket (nth 0 tbl [])]; d_primary := 0;
+     d_pending := []; d_rung0 := 0; d_prev0 := [] |}.
+
 (* ==== layer 2c: population based training ======================================= *)
 Record pbt_trial := { pt_id : Z; pt_score : option Q; pt_last : Q; pt_stopped : bool }.
 Record pbt := { pb_trials : list pbt_trial;    (* _trial_state in insertion order *)
@@ -643,6 +745,51 @@ Definition pbt_sched_gen (fixed : bool) (p : pbt_prm) : scheduler pbt (Q * Q * Z
 (* the code as it is (after the fix) / as it was *)
 Definition pbt_sched := pbt_sched_gen true.
 Definition pbt_sched_unfixed := pbt_sched_gen false.
+
+(* ==== layer 3: the checkpoint directories of LocalBackend ================================= *)
+(* local_backend.py copy_checkpoint = shutil.copytree(src, tgt) (fails if src is missing or tgt
+   exists), delete_checkpoint = shutil.rmtree(path, ignore_errors=True).  A file system is a map
+   trial id -> content of its checkpoint directory (an abstract content id); no entry = no
+   directory. *)
+Definition fsmap := list (Z * Z).
+Fixpoint fs_get (f : fsmap) (i : Z) : option Z :=
+  match f with [] => None | (j, c) :: r => if Z.eqb j i then Some c else fs_get r i end.
+Definition fs_del (f : fsmap) (i : Z) : fsmap := filter (fun p => negb (Z.eqb (fst p) i)) f.
+Definition fs_set (f : fsmap) (i c : Z) : fsmap := (i, c) :: fs_del f i.
+Inductive fs_op := FsWrite (i c : Z) | FsCopy (src tgt : Z) | FsDelete (i : Z).
+(* None = the call raises (FileNotFoundError / FileExistsError) *)
+Definition fs_step (f : fsmap) (o : fs_op) : option fsmap :=
+  match o with
+  | FsWrite i c => Some (fs_set f i c)
+  | FsCopy src tgt =>
+      match fs_get f src, fs_get f tgt with
+      | Some c, None => Some (fs_set f tgt c)
+      | _, _ => None
+      end
+  | FsDelete i => Some (fs_del f i)
+  end.
+(* replay with the directory contents observed after every call: all calls succeed and the
+   listed directories hold the listed contents (None = absent) *)
+Fixpoint fs_replay (f : fsmap) (l : list (fs_op * list (Z * option Z))) : bool :=
+  match l with
+  | [] => true
+  | (o, obs) :: r =>
+      match fs_step f o with
+      | None => false
+      | Some f' => forallb (fun p => opt_eqb Z.eqb (fs_get f' (fst p)) (snd p)) obs && fs_replay f' r
+      end
+  end.
+
+(* does trial j have a checkpoint on disk after the calls of a trace prefix?  a trial that has
+   reported has written one (the training script checkpoints before it reports) *)
+Definition ck_step (h : Z -> bool) (e : event) : Z -> bool :=
+  match e with
+  | EDecision i _ => fun x => if Z.eqb x i then true else h x
+  | ECopy s t => fun x => if Z.eqb x t then h s else h x
+  | EDelete i _ => fun x => if Z.eqb x i then false else h x
+  | _ => h
+  end.
+Definition has_ckpt (pre : list event) (j : Z) : bool := fold_left ck_step pre (fun _ => false) j.
 
 (* ---- checks used by the correspondence driver ---------------------------------- *)
 Definition trace_eqb (a b : list event) : bool := list_eqb event_eqb a b.
